@@ -23,6 +23,7 @@ from harness import geo_build as GB
 from harness import geo_sym as GS
 
 PID = 'C04'
+GROUP_TIMEOUT_MS = 250
 
 _LD = None
 def _load():
@@ -121,17 +122,17 @@ def task_fromgeo(family, shape, atm, conv, order, angle, use_map, surf_cols=None
     failures, samples, distinct = [], [], set()
     perm_cs = GO.perm_cos_sin(angle)
     state = dict(reached=0)
+    expect_oracle_error = (order == 'dmplex' and family == 'mix5')
     cfg = dict(family=family, shape=shape, atm=atm, convention=conv, order=order, angle=angle,
                use_map=use_map, rot=rot, translate=translate, mixmode=mixmode)
 
     def h(c):
         ops = GS.SymOps()
         inp = make_inputs(c, family, shape, mixmode)
-        geo, mesh = GB.build(M, family, inp, conv, atm, order)
+        mesh = GB.oracle_mesh(family, inp)
         ncol = len(mesh['cols'])
         tops, bots, mids = GO.layer_levels(mesh)
         atmvol = _pos(c, 'atmvol'); atmcon = _pos(c, 'atmcon')
-        blockmap = GB.make_blockmap(geo) if use_map else {}
         which = list(range(ncol)) if surf_cols is None else list(surf_cols)
         surfaces = [None] * ncol
         for k in which:
@@ -144,12 +145,7 @@ def task_fromgeo(family, shape, atm, conv, order, angle, use_map, surf_cols=None
             _install_exact_trig(ld, {GB.ROT_DEG[rot]: GB.ROT[rot]})
             pivot = (c.real('px'), c.real('py'))
         if translate: shift = [c.real('tx'), c.real('ty'), c.real('tz')]
-        mesh2, surf = GB.configure(geo, mesh, angle, atmvol, atmcon, surfaces, rot, pivot, shift)
 
-        # ---- code under test
-        grid = T.t2grid().fromgeo(geo, blockmap)
-
-        # ---- independent expectation, obligations
         def record(label, what, model):
             def val(x):
                 if x is None or model is None: return None
@@ -161,6 +157,25 @@ def task_fromgeo(family, shape, atm, conv, order, angle, use_map, surf_cols=None
                         shift=[val(p) for p in shift] if shift else None)
             failures.append(dict(key='%s/%s' % (family, _slug(label)), what=what, replay=data))
 
+        # ---- code under test
+        try:
+            geo, _ = GB.build(M, family, inp, conv, atm, order, mesh)
+            blockmap = GB.make_blockmap(geo) if use_map else {}
+            mesh2, surf = GB.configure(geo, mesh, angle, atmvol, atmcon, surfaces, rot, pivot, shift)
+            grid = T.t2grid().fromgeo(geo, blockmap)
+        except Exception as exn:
+            if expect_oracle_error and 'DMPlex' in str(exn):
+                return 'documented: %s' % exn       # 10-node blocks have no DMPlex order
+            import traceback
+            tb = traceback.extract_tb(exn.__traceback__)[-1]
+            c.prove(False, 'no exception in geometry construction / fromgeo')
+            rr, m = c.reachable()
+            record('no exception in geometry construction / fromgeo',
+                   '%s: %s at %s:%d' % (type(exn).__name__, exn, tb.filename.split('/')[-1], tb.lineno), m)
+            state['reached'] += 1
+            return 'raised %s' % type(exn).__name__
+
+        # ---- independent expectation, obligations
         try:
             ex = GO.Expected(ops, mesh2, surf, atm, order, perm_cs, atmvol, atmcon)
             ex.block_cells()
@@ -184,10 +199,13 @@ def task_fromgeo(family, shape, atm, conv, order, angle, use_map, surf_cols=None
             return r
 
         def discharge():
-            """Numeric obligations are sent to the solver one item (column,
-            block, connection) at a time as a conjunction; only if that is not
-            unsat are the item's obligations tried one by one, to name the
-            failing one.  (One query for the whole path was measured 10x slower.)"""
+            """Numeric obligations are first sent to the solver one item
+            (column, block, connection) at a time as a conjunction with a short
+            time limit; unless that is unsat the item's obligations are decided
+            one by one (which also names the failing one).  One query for a
+            whole path was measured 10x slower than the per-item queries, and
+            the conjunction of a slanted connection's obligations slower than
+            its parts."""
             groups, order_ = {}, []
             for ob, where in pending:
                 f = z3.simplify(GS.formula(ob))
@@ -201,13 +219,10 @@ def task_fromgeo(family, shape, atm, conv, order, angle, use_map, surf_cols=None
             for where in order_:
                 fs = groups[where]
                 if len(fs) > 1:
-                    r = c.prove(z3.And(*[f for f, _ in fs]), 'all obligations of ' + where.split(' ')[0])
+                    r, _ = c.solve(z3.Not(z3.And(*[f for f, _ in fs])), timeout_ms=GROUP_TIMEOUT_MS)
                     if r == 'unsat':
-                        c.stats['obligations'] += len(fs) - 1; c.stats['ob_unsat'] += len(fs) - 1
+                        c.stats['obligations'] += len(fs); c.stats['ob_unsat'] += len(fs)
                         continue
-                    if r == 'sat': c.failures.pop(); c.stats['ob_sat'] -= 1
-                    else: c.unknowns.pop(); c.stats['ob_unknown'] -= 1
-                    c.stats['obligations'] -= 1
                 for f, ob in fs: prove_one(ob, where)
 
         summary = GB.compare(ex, geo, grid, blockmap, S, P)
@@ -222,7 +237,6 @@ def task_fromgeo(family, shape, atm, conv, order, angle, use_map, surf_cols=None
         return summary
 
     res = sym.explore(h, GS.FastCtx(timeout_ms=30000), max_paths=20000, profile_repo=profile)
-    expect_oracle_error = (order == 'dmplex' and family == 'mix5')
     if state['reached'] == 0 and not expect_oracle_error:
         res['exhausted'] = False          # vacuous: never reached the obligations
     name = '%s%s/atm%d/conv%d/%s/angle%g/%s%s%s%s%s%s' % (
@@ -254,16 +268,60 @@ def split(kw, ncols, nz, nsplit):
 def catalogue(tier):
     T = []
     def add(**kw): T.append((task_fromgeo, kw))
+    def add_split(nsplit, ncols, nz, **kw):
+        for k2 in split(kw, ncols, nz, nsplit): T.append((task_fromgeo, k2))
+    quick = (tier == 'quick')
     first = [True]
-    # (1) every configuration of the quantifier's finite space
+    # (1) every configuration of the quantifier's finite space (216) on RECT(2x1x2):
+    #     quick: surface of column 0 free; thorough: both surfaces free
     for atm, conv, order, angle, mp in itertools.product(ATMS, CONVS, ORDERS, ANGLES, MAPS):
-        if tier == 'quick':
-            add(family='rect', shape=(2, 1, 2), atm=atm, conv=conv, order=order, angle=angle, use_map=mp,
-                surf_cols=[0], profile=first[0])
-        else:
-            add(family='rect', shape=(2, 1, 2), atm=atm, conv=conv, order=order, angle=angle, use_map=mp,
-                profile=first[0])
+        add(family='rect', shape=(2, 1, 2), atm=atm, conv=conv, order=order, angle=angle, use_map=mp,
+            surf_cols=[0] if quick else None, profile=first[0])
         first[0] = False
+    # (2) RECT(2x2x2): quick = three free surfaces (125 arrangements, the fourth column at the
+    #     default surface); thorough = all four free (625 arrangements) for each atmosphere type
+    if quick:
+        add_split(2, 3, 2, family='rect', shape=(2, 2, 2), atm=1, conv=0, order=None, angle=30.0, use_map=True,
+                  surf_cols=[0, 1, 3])
+    else:
+        for atm, conv, order, angle, mp in [(0, 1, 'dmplex', 0.0, False), (1, 0, None, 30.0, True),
+                                            (2, 3, 'layer_column', 90.0, True)]:
+            add_split(2, 4, 2, family='rect', shape=(2, 2, 2), atm=atm, conv=conv, order=order, angle=angle, use_map=mp)
+    # (3) small shapes with every surface free: rows in x and in y, a single column, a single layer
+    for i, (shape, atm) in enumerate([((2, 1, 2), 0), ((2, 1, 2), 1), ((2, 1, 2), 2), ((1, 2, 2), 0), ((1, 2, 2), 1),
+                                      ((1, 2, 2), 2), ((1, 1, 2), 0), ((2, 1, 1), 1), ((1, 1, 1), 2)]):
+        add(family='rect', shape=shape, atm=atm, conv=(i + 1) % 4, order=ORDERS[i % 3], angle=ANGLES[i % 3], use_map=bool(i % 2))
+    # (4) rotated (exact rational rotation about a symbolic pivot) and translated (symbolic shift)
+    add(family='rect', shape=(2, 1, 2), atm=0, conv=0, order=None, angle=30.0, use_map=False, rot='p345', translate=True, profile=True)
+    add(family='rect', shape=(1, 2, 2), atm=1, conv=2, order=None, angle=0.0, use_map=True, rot='q90', surf_cols=[1])
+    # (5) irregular: quadrilateral family with a free vertex; triangles/quads/pentagon mesh
+    add(family='quadfam', shape=2, atm=0, conv=3, order='dmplex', angle=30.0, use_map=True, surf_cols=[0], profile=True)
+    add_split(1, 1, 2, family='mix5', shape=2, atm=1, conv=0, order=None, angle=0.0, use_map=True, surf_cols=[4], mixmode='stretch')
+    add_split(1, 1, 2, family='triquad', shape=2, atm=0, conv=2, order='dmplex', angle=0.0, use_map=False, surf_cols=[2], mixmode='stretch')
+    add(family='mix5', shape=2, atm=0, conv=0, order='dmplex', angle=0.0, use_map=False, surf_cols=[], mixmode='stretch')   # documented exception
+    if quick: return T
+    # ---- thorough only
+    # (6) RECT(3x2x3): pairs / a triple of free surfaces (7 classes each), the other columns at the default surface
+    for atm in ATMS:
+        for pair in ([0, 1], [1, 4], [0, 4], [2, 5]):
+            add(family='rect', shape=(3, 2, 3), atm=atm, conv=atm, order=ORDERS[atm], angle=ANGLES[atm], use_map=bool(atm % 2), surf_cols=pair)
+    add_split(1, 3, 3, family='rect', shape=(3, 2, 3), atm=1, conv=3, order=None, angle=30.0, use_map=True, surf_cols=[0, 1, 4])
+    add_split(1, 3, 3, family='rect', shape=(3, 2, 3), atm=0, conv=0, order='dmplex', angle=0.0, use_map=False, surf_cols=[1, 2, 4])
+    # (7) irregular, more freedom
+    add_split(1, 1, 2, family='mix5', shape=2, atm=0, conv=0, order=None, angle=0.0, use_map=False, surf_cols=[0], mixmode='full')
+    add_split(1, 1, 2, family='mix5', shape=2, atm=1, conv=3, order='layer_column', angle=30.0, use_map=True, surf_cols=[4], mixmode='full')
+    add_split(1, 1, 2, family='triquad', shape=2, atm=2, conv=1, order='dmplex', angle=90.0, use_map=True, surf_cols=[3], mixmode='full')
+    for pair, atm in (([0, 2], 0), ([3, 4], 1), ([1, 4], 2), ([2, 4], 1)):
+        add_split(1, 2, 2, family='mix5', shape=2, atm=atm, conv=atm, order=None, angle=0.0, use_map=bool(atm), surf_cols=pair, mixmode='stretch')
+    add_split(1, 1, 3, family='mix5', shape=3, atm=1, conv=0, order=None, angle=30.0, use_map=False, surf_cols=[4, 2], mixmode='stretch')
+    add_split(1, 2, 2, family='triquad', shape=2, atm=1, conv=2, order='dmplex', angle=0.0, use_map=True, surf_cols=[1, 3], mixmode='stretch')
+    for atm in ATMS:
+        add(family='quadfam', shape=2, atm=atm, conv=atm + 1, order=ORDERS[atm], angle=ANGLES[atm], use_map=bool(atm % 2))
+    add(family='quadfam', shape=3, atm=0, conv=0, order=None, angle=30.0, use_map=True, surf_cols=[1])
+    # (8) rotations / translation
+    for rot, atm in (('p345', 0), ('p51213', 1), ('q90', 2)):
+        add(family='rect', shape=(2, 2, 2), atm=atm, conv=atm, order=None, angle=ANGLES[atm], use_map=bool(atm), rot=rot, translate=(atm != 1), surf_cols=[0, 3])
+    add_split(1, 1, 2, family='mix5', shape=2, atm=0, conv=0, order=None, angle=0.0, use_map=False, surf_cols=[4], mixmode='stretch', rot='p345', translate=True)
     return T
 
 
@@ -274,6 +332,56 @@ def run(tier, seed, rep):
         import random
         random.Random(seed).shuffle(tasks)
     rep.add_results(report.run_tasks(tasks))
+    quick = (tier == 'quick')
+    rep.bounds += [
+        'values: every spacing / stretch > 0, origin, atmosphere volume > 0 and connection distance > 0, rotation pivot, '
+        'translation vector: arbitrary reals (exact real arithmetic, no magnitude bound)',
+        'column surfaces: any real above the bottom of the lowest layer, up to and beyond the top of the geometry; every '
+        'arrangement relative to the layer boundaries (strictly inside a layer, exactly on a boundary, above the top) is a path',
+        'configurations: all 216 = atmosphere {0,1,2} x convention {0..3} x block order {None,layer_column,dmplex} x '
+        'permeability angle {0,30,90} x block map {none, concrete map renaming every other block} on RECT(2x1x2) with '
+        + ('the surface of column 0 free' if quick else 'both surfaces free'),
+        ('RECT(2x2x2) with 3 free surfaces (125 arrangements), 1 configuration' if quick else
+         'RECT(2x2x2) with all 4 surfaces free (625 arrangements) for 3 configurations (one per atmosphere type)'),
+        'RECT 2x1x2, 1x2x2 (all surfaces free, every atmosphere type), 1x1x2, 2x1x1, 1x1x1',
+        'rotation by the real rotate() at angles with rational cosine/sine (3-4-5' + (', 5-12-13' if not quick else '') +
+        ', 90 degrees) about a symbolic pivot, translation by a symbolic vector',
+        'irregular: QUADFAM (two quadrilaterals sharing a free vertex (a,b)), MIX5 (2 quadrilaterals, 2 triangles, 1 pentagon; '
+        'symbolic stretch sx, sy' + ('' if quick else '; in mode full also symbolic shear k in (-1,1) and vertex slide t in (-1/2,1/2)') +
+        '), TRIQUAD (MIX5 without the pentagon, for the dmplex order); 2 layers' + ('' if quick else ' (one MIX5 and one QUADFAM task with 3)') +
+        '; one free surface' + ('' if quick else ' or a pair of free surfaces'),
+    ]
+    if not quick:
+        rep.bounds += ['RECT(3x2x3): pairs of free surfaces [0,1], [1,4], [0,4], [2,5] (49 arrangements each) for every atmosphere type, '
+                       'triples [0,1,4] and [1,2,4] (343 arrangements); the other columns at the default surface']
+    rep.outside += [
+        'tilted geometries (gdcx / gdcy non-zero): only the untilted gravity cosines are decided',
+        'rotation at angles whose cosine/sine are irrational (cos/sin of symbolic or general angles are not encoded)',
+        'columns with more than 5 nodes; the shipped geometries g1..g7 and their refinements as inputs',
+        'rectangular sizes beyond 2x2x2 with all surfaces free / 3x2x3 with three free surfaces; more than 3 layers',
+        'IEEE rounding: all identities are decided in exact real arithmetic over the exact values of the float constants',
+        'the naming functions themselves (column / layer / block name generation is property C17); names are concrete here',
+    ]
+    rep.assumptions += [
+        'the bottom layer of every column is non-empty: surface > bottom of the lowest layer',
+        'surfaces are installed the way the library does it: col.surface = s; set_column_num_layers(col); '
+        'setup_block_name_index(); setup_block_connection_name_index()',
+        'irregular geometries are assembled like mulgrid.from_gmsh(): add_node, add_column(column(..)), add_connection for every '
+        'pair of columns sharing an edge (in sorted order), add_layers, set_default_surface, identify_neighbours, index set-up',
+        'math.cos / math.sin of the rotation angle are replaced by the exact rational pair on the unit circle (so that a rotation '
+        'preserves lengths exactly in real arithmetic); cos/sin of the permeability angle are the real float values, lifted exactly',
+        'MIX5 / QUADFAM shape parameters stay in the stated open ranges, which keep every column convex and anticlockwise',
+        'block centre convention as documented in mulgrid.block_centre: layer centre, except (bottom + surface)/2 in a surface block '
+        'whose surface is not above the layer top; vertical connection distances are centre-to-interface distances',
+        'permeability direction = index of the larger component (first on ties) of the horizontal centre-to-centre vector rotated '
+        'clockwise by the permeability angle',
+    ]
+    rep.trusted += ['harness/geo_oracle.py (shoelace area, fan-triangulation centroid, squared point-line distance, area x height)',
+                    'harness/geo_sym.py FastCtx (per-path branch-decision cache, cross-path cache of identical UNSAT queries, '
+                    'qfnra-nlsat front end with fall-back to the stock solver)']
+    rep.extra['configurations'] = len(ATMS) * len(CONVS) * len(ORDERS) * len(ANGLES) * len(MAPS)
     rep.process_failures()
-    return rep.finish(rule='one obligation = one (label, z3 formula) per block / connection / column on one path; '
-                           'distinct = distinct non-constant simplified formulas by AST hash')
+    return rep.finish(rule='one obligation = one (label, z3 formula) per column / block / connection on one path '
+                           '(pc AND NOT formula must be unsat); structural list comparisons are concrete per path '
+                           '(the path itself is a solver-decided arrangement); distinct = distinct non-constant '
+                           'simplified formulas by (label, AST hash) per task')
